@@ -295,3 +295,50 @@ def arrayelem(facts: CppFacts):
     res.samples = ["element i at kElementSize * i, size kElementSize, null storage past the end"]
     res.analysed = [ARR]
     return res
+
+
+def packforward(facts: CppFacts):
+    """R-PACKFORWARD (C07/C20): GenericArrayView carries the runtime-parameter types of its elements as a trailing
+    template parameter pack.  A method or free function that names "another GenericArrayView with a generic element
+    type" as a parameter must pass that pack on; without it the parameter type matches no array of parameterised
+    structures and Equals()/WriteToTextStream() of any structure containing one does not compile.  Overloads for
+    prelude scalar element views (UIntView/IntView arrays) have no parameters by construction and are exempt."""
+    res = RuleResult("R-PACKFORWARD")
+    ARR = "runtime/cpp/emboss_array_view.h"
+    src = re.sub(r"//[^\n]*", "", facts.repo.read(ARR))
+    cm = re.search(r"template\s*<([^;{}]*?)>\s*class\s+GenericArrayView\b", src, re.S)
+    if not cm:
+        raise AnalysisError("GenericArrayView: class template header not found")
+    cparams = [a[-1] for a in _split_args([t for t in tokens(cm.group(1)) if t != "/**/"]) if a]
+    pack = next((p for p in cparams if "..." in " ".join(tokens(cm.group(1))) and p == cparams[-1]), None)
+    if not re.search(r"typename\s*\.\.\.\s*" + re.escape(cparams[-1]), cm.group(1)):
+        raise AnalysisError("GenericArrayView: trailing parameter pack not found")
+    pack = cparams[-1]
+    for mm in re.finditer(r"const\s+GenericArrayView\s*<", src):
+        i = mm.end()
+        depth = 1
+        j = i
+        while j < len(src) and depth:
+            if src[j] == "<":
+                depth += 1
+            elif src[j] == ">":
+                depth -= 1
+            j += 1
+        args = _split_args(tokens(src[i:j - 1]))
+        if not args:
+            continue
+        first = " ".join(args[0])
+        if "::" in first or "View <" in first:
+            continue  # a concrete prelude element view
+        line = src.count("\n", 0, mm.start()) + 1
+        res.instances += 1
+        last = " ".join(args[-1]).replace(" ", "")
+        if last != f"{pack}...":
+            res.add(f"{ARR}|GenericArrayView<{first},...>|pack|#{res.instances}", f"a parameter of type GenericArrayView<{first}, ...> "
+                    f"(line {line}) does not pass on `{pack}...`: the declaration does not match arrays of parameterised structures, so "
+                    "Equals()/text output of a structure containing one fails to compile", ARR, line, "GenericArrayView")
+    if res.instances < 3:
+        raise AnalysisError(f"only {res.instances} generic GenericArrayView parameters found")
+    res.samples = [f"{res.instances} generic array parameters forward {pack}..."]
+    res.analysed = [ARR]
+    return res
